@@ -21,12 +21,18 @@ def make_root(name):
   if name == 'plainmid':
     # subscriber - plain containers - subscriber
     return O.partial(x=pg.Dict(p=pg.List([pg.Dict(a=0, b=1), P.partial(x=0)])), r=0)
+  if name == 'typed':
+    # schema-bound containers (defaults, dynamic keys, element spec) below a subscriber
+    T = pg.typing
+    return O.partial(
+        x=pg.Dict(value_spec=T.Dict([('x', T.Int(default=1)), ('y', T.Int(default=2)), (T.StrKey('k.*'), T.Any())]), x=5, y=2, k1=2),
+        items=[pg.List([1, 2], value_spec=T.List(T.Union([T.Int(), T.Object(pg.hyper.OneOf)])))], r=0)
   if name == 'hyper':
     return O.partial(x=pg.Dict(h=pg.oneof([1, 2]), c=0), items=[pg.oneof([3, 4])], r=1)
   raise ValueError(name)
 
 
-ROOTS = ('objs', 'cbs', 'plainmid', 'hyper')
+ROOTS = ('objs', 'cbs', 'plainmid', 'hyper', 'typed')
 
 
 _ST_MKVAL = st.mkval      # the symtree decoder (apply() swaps st.mkval for the duration of a call)
@@ -117,7 +123,7 @@ class NotifySpace(statespace.Space):
     if len(st.walk(root)) > 14:
       return []
     ops = st.menu(w, self.vals, modes=self.modes, node_vals=False, with_copy=False, rich=self.rich)
-    ops = [o for o in ops if o[1] not in ('imul',) and o[0] != 'noparents']
+    ops = [o for o in ops if o[0] != 'noparents']
     # inserting the absence marker itself (pg.Insertion(MISSING_VALUE)) is a misuse, not an ordinary mutation
     ops = [o for o in ops if not (o[1] == 'rebind' and any(v == ('ins', 'MISSING') for _, v in o[4]))]
     ops = [o for o in ops if not (o[1] in ('append', 'insert', 'extend', 'iadd', 'setslice') and 'MISSING' in repr(o[4:]))]
@@ -128,6 +134,15 @@ class NotifySpace(statespace.Space):
       node = st.resolve(root, o[3])
       return isinstance(node, pg.List) and any(isinstance(k, int) and k >= len(node) and v == 'MISSING' for k, v in o[4])
     ops = [o for o in ops if not past_end(o)]
+    # bulk list writes whose later element a typed list rejects (the earlier ones stay), and a three-fold repetition
+    for keys, node, _, _ in st.walk(root):
+      if isinstance(node, pg.List) and len(node) <= 3:
+        ops.append(('', 'extend', 0, keys, ('hyper', 'sd')))
+        ops.append(('', 'iadd', 0, keys, ('hyper', 'sd')))
+        if len(node):
+          ops.append(('', 'setslice', 0, keys, (0, 1, None), ('hyper', 'sd')))
+        if 0 < len(node) <= 2:
+          ops.append(('', 'imul', 0, keys, 3))
     # batched deep rebinds from the root: two paths under one container / under different ones
     leaves = []
     for keys, node, _, _ in st.walk(root):
